@@ -8,7 +8,7 @@ import enum
 
 from . import terms as tm
 from .terms import T, INT, BOOL, STR, BYTES, J
-from .values import (Sym, JVal, SymType, Obj, PyList, PyDict, ClassVal, FuncVal, BoundMethod, Builtin,
+from .values import (Sym, JVal, SymType, SymKey, Obj, PyList, PyDict, FiniteMap, ClassVal, FuncVal, BoundMethod, Builtin,
                      ModuleVal, Opaque, Raise, Unsupported, SymObjSeq, kind_of, to_term, as_value,
                      kind_sort, is_sym)
 from . import values as V
@@ -291,13 +291,21 @@ def contains_total(ip, st, item, cont):
         return as_value("bool", tm.Or(*[tm.Bool(p) if isinstance(p, bool) else p.term for p in parts]))
     if isinstance(cont, PyDict):
         d = st.cell(cont.oid)
-        if not is_sym(item):
+        if not is_sym(item) and not any(isinstance(k, SymKey) for k in d):
             try:
                 return item in d
             except TypeError:
                 raise Unsupported("unhashable concrete key")
-        parts = [eq_total(ip, st, item, k) for k in d]
+        parts = [eq_total(ip, st, item, k.sym if isinstance(k, SymKey) else k) for k in d]
         return as_value("bool", tm.Or(*[tm.Bool(p) if isinstance(p, bool) else p.term for p in parts]))
+    if isinstance(cont, FiniteMap):
+        cell = st.cell(cont.oid)
+        parts = []
+        for k, (present, val) in cell.items():
+            e = eq_total(ip, st, item, k)
+            e = tm.Bool(e) if isinstance(e, bool) else e.term
+            parts.append(tm.And(e, present))
+        return as_value("bool", tm.Or(*parts))
     if isinstance(cont, JDict):
         if cont.oid is not None and not is_sym(item) and item in st.cell(cont.oid):
             return True
@@ -404,12 +412,27 @@ def compare(ip, st, op, a, b):
     if isinstance(op, (ast.In, ast.NotIn)):
         for st1, c in narrow(ip, st, b):
             if isinstance(c, JList):
-                raise Unsupported("membership in JSON list")
+                if kind_of(a) != "str":
+                    raise Unsupported("membership of a non-string in a JSON list")
+                k = tm.BoundVar(tm.fresh_name("mi"), INT)
+                e = V.j_lget(c.term, k)
+                ex = tm.Exists([k], tm.And(tm.Le(tm.Int(0), k), tm.Lt(k, V.j_llen(c.term)),
+                                           tm.Eq(V.j_tag(e), tm.Int(V.TAG_STR)), tm.Eq(V.j_sval(e), to_term(a))))
+                r = as_value("bool", ex)
+                yield st1, (r if isinstance(op, ast.In) else b_not(r))
+                continue
             if c is None or isinstance(c, Opaque) or kind_of(c) in ("int", "bool"):
                 yield st1, Raise(mk_exc(st1, "TypeError", "argument of type is not iterable"))
                 continue
             item = a
-            if isinstance(c, (JDict, PyDict)) and isinstance(item, JVal):
+            if isinstance(c, FiniteMap) and isinstance(item, JVal) and not ip.spec:
+                for st2, kind, _ in fm_lookup(ip, st1, c, item):
+                    if kind == "unhashable":
+                        yield st2, Raise(mk_exc(st2, "TypeError", "unhashable type"))
+                    else:
+                        yield st2, (kind == "found") == isinstance(op, ast.In)
+                continue
+            if isinstance(c, (JDict, PyDict, FiniteMap)) and isinstance(item, JVal):
                 # key must be hashable: lists / dicts raise TypeError
                 tag = V.j_tag(item.term)
                 unh = tm.Or(tm.Eq(tag, tm.Int(V.TAG_LIST)), tm.Eq(tag, tm.Int(V.TAG_DICT)))
@@ -418,7 +441,7 @@ def compare(ip, st, op, a, b):
                         yield st2, Raise(mk_exc(st2, "TypeError", "unhashable type"))
                     else:
                         for st3, it in narrow(ip, st2, item):
-                            if isinstance(c, JDict) and kind_of(it) != "str":
+                            if isinstance(c, (JDict, FiniteMap)) and kind_of(it) != "str":
                                 yield st3, isinstance(op, ast.NotIn)
                             elif isinstance(it, Opaque):
                                 yield st3, isinstance(op, ast.NotIn)   # float keys never present in our dicts
@@ -438,7 +461,33 @@ def compare(ip, st, op, a, b):
                 done = False
                 for st3, it in narrow(ip, st1, item):
                     if isinstance(it, (JList, JDict, Opaque)):
-                        raise Unsupported("JSON container as item of membership test")
+                        if isinstance(c, (PyList, tuple)) and all(x is None or isinstance(x, str)
+                                                                  for x in pylist_items(st3, c)):
+                            # a JSON list / object / float equals no str, int or None constant
+                            yield st3, isinstance(op, ast.NotIn)
+                            continue
+                        if isinstance(c, (PyList, tuple)):
+                            # element-wise: a JSON container / float equals no constant; against another raw JSON value it
+                            # is equal when it is the same value, different when the JSON types are known to differ
+                            verdict = False
+                            for x in pylist_items(st3, c):
+                                if isinstance(x, JVal):
+                                    if x.term is item.term:
+                                        verdict = True
+                                        break
+                                    if ip.must(st3, tm.Not(tm.Eq(V.j_tag(x.term), V.j_tag(item.term)))):
+                                        continue
+                                    verdict = None
+                                    break
+                                elif x is None or isinstance(x, (str, int, bytes)) or kind_of(x) in ("str", "int", "bool", "bytes"):
+                                    continue
+                                else:
+                                    verdict = None
+                                    break
+                            if verdict is not None:
+                                yield st3, verdict == isinstance(op, ast.In)
+                                continue
+                        raise Unsupported("JSON container as item of membership test in %r" % (c,))
                     r = contains_total(ip, st3, it, c) if it is not None or isinstance(c, (PyList, tuple)) else False
                     yield st3, (r if isinstance(op, ast.In) else b_not(r))
                 continue
@@ -723,6 +772,50 @@ def str_format(ip, st, fmt, args):
     yield st, str_concat(ip, pieces)
 
 
+def fm_lookup(ip, st, fm, key):
+    """Look a raw JSON value up in a finite map (keys are str constants).  Yields (state, kind, value) with kind in
+    'unhashable' | 'absent' | 'found'.  One state per key that may match, one for "no key matches" (whatever the
+    JSON type of the key) - and no fork at all when the path condition already pins the key syntactically."""
+    cell = st.cell(fm.oid)
+    tag = V.j_tag(key.term)
+    is_str = tm.Eq(tag, tm.Int(V.TAG_STR))
+    sv = V.j_sval(key.term)
+    known = st.facts
+
+    def holds(t):
+        return (t.op == "bool" and t.val) or t in known
+    for k, (present, val) in cell.items():
+        if holds(is_str) and holds(tm.Eq(sv, tm.Str(k))) and holds(present):
+            yield st, "found", val
+            return
+    unh = tm.Or(tm.Eq(tag, tm.Int(V.TAG_LIST)), tm.Eq(tag, tm.Int(V.TAG_DICT)))
+    if ip.spec:
+        rest = st
+    else:
+        rest = None
+        for st1, bad in ip.branch(st, Sym("bool", unh)):
+            if bad:
+                yield st1, "unhashable", None
+            else:
+                rest = st1
+        if rest is None:
+            return
+    for k, (present, val) in list(cell.items()):
+        conj = [is_str, tm.Eq(sv, tm.Str(k)), present]
+        c = tm.And(*conj)
+        if c.op == "bool" and not c.val:
+            continue
+        if ip.feasible(rest, c):
+            s2 = rest.fork()
+            for t in conj:
+                s2.assume(t)
+            ip.count_path()
+            yield s2, "found", val
+        rest.assume(tm.Not(c))
+    if ip.feasible(rest):
+        yield rest, "absent", None
+
+
 # ------------------------------------------------------------------------------ indexing / slicing
 def norm_index(i_t, n_t):
     """Python index normalisation for possibly negative i."""
@@ -754,7 +847,7 @@ def index(ip, st, v, i):
             else:
                 yield st1, Raise(mk_exc(st1, "TypeError", "object is not subscriptable"))
         return
-    if isinstance(i, JVal) and not isinstance(v, (JDict, PyDict)):
+    if isinstance(i, JVal) and not isinstance(v, (JDict, PyDict, FiniteMap)):
         for st1, ii in narrow(ip, st, i):
             if kind_of(ii) in ("int", "bool"):
                 yield from index(ip, st1, v, ii)
@@ -796,6 +889,36 @@ def index(ip, st, v, i):
             else:
                 yield st1, Raise(mk_exc(st1, "IndexError", "list index out of range"))
         return
+    if isinstance(v, FiniteMap):
+        cell = st.cell(v.oid)
+        if isinstance(i, JVal):
+            for st1, kind, val in fm_lookup(ip, st, v, i):
+                if kind == "unhashable":
+                    yield st1, Raise(mk_exc(st1, "TypeError", "unhashable type"))
+                elif kind == "absent":
+                    if ip.spec:
+                        raise Unsupported("spec: key possibly absent from finite map")
+                    yield st1, Raise(mk_exc(st1, "KeyError", "key"))
+                else:
+                    yield st1, val
+            return
+        rest = st
+        for k, (present, val) in list(cell.items()):
+            e = eq_total(ip, rest, i, k)
+            c = tm.And(tm.Bool(e) if isinstance(e, bool) else e.term, present)
+            if c.op == "bool" and not c.val:
+                continue
+            if ip.feasible(rest, c):
+                s2 = rest.fork()
+                s2.assume(c)
+                ip.count_path()
+                yield s2, val
+            rest.assume(tm.Not(c))
+        if ip.feasible(rest):
+            if ip.spec:
+                raise Unsupported("spec: key possibly absent from finite map")
+            yield rest, Raise(mk_exc(rest, "KeyError", i))
+        return
     if isinstance(v, PyDict):
         d = st.cell(v.oid)
         if isinstance(i, JVal):
@@ -811,7 +934,7 @@ def index(ip, st, v, i):
                         else:
                             yield from index(ip, st2, v, ii)
             return
-        if not is_sym(i):
+        if not is_sym(i) and not any(isinstance(k, SymKey) for k in d):
             try:
                 if i in d:
                     yield st, d[i]
@@ -820,9 +943,9 @@ def index(ip, st, v, i):
             except TypeError:
                 yield st, Raise(mk_exc(st, "TypeError", "unhashable type"))
             return
-        # symbolic key over concrete keys: fork per key
+        # symbolic key (or symbolic stored keys): fork per stored key
         for k in list(d):
-            c = eq_total(ip, st, i, k)
+            c = eq_total(ip, st, i, k.sym if isinstance(k, SymKey) else k)
             if c is False:
                 continue
             if c is True:
@@ -961,10 +1084,69 @@ def setitem(ip, st, cont, key, val):
     if isinstance(key, enum.IntEnum):
         key = int(key)
     if isinstance(cont, PyDict):
-        if is_sym(key):
-            raise Unsupported("dict store with symbolic key")
-        st.cell(cont.oid, write=True)[key] = val
-        yield st, None
+        if isinstance(key, JVal):
+            tag = V.j_tag(key.term)
+            unh = tm.Or(tm.Eq(tag, tm.Int(V.TAG_LIST)), tm.Eq(tag, tm.Int(V.TAG_DICT)))
+            for st1, bad in ip.branch(st, Sym("bool", unh)):
+                if bad:
+                    yield st1, Raise(mk_exc(st1, "TypeError", "unhashable type"))
+                else:
+                    for st2, kk in narrow(ip, st1, key):
+                        if isinstance(kk, (Opaque, JVal)):
+                            raise Unsupported("dict store with a float / raw JSON key")
+                        yield from setitem(ip, st2, cont, kk, val)
+            return
+        d = st.cell(cont.oid)
+        if not is_sym(key) and not any(isinstance(k, SymKey) for k in d):
+            st.cell(cont.oid, write=True)[key] = val
+            yield st, None
+            return
+        # association-list semantics: overwrite the stored key that equals `key`, else append
+        rest = st
+        for k in list(d):
+            c = eq_total(ip, rest, key, k.sym if isinstance(k, SymKey) else k)
+            if c is False:
+                continue
+            if c is True:
+                rest.cell(cont.oid, write=True)[k] = val
+                yield rest, None
+                return
+            if ip.feasible(rest, c.term):
+                s2 = rest.fork()
+                s2.assume(c.term)
+                ip.count_path()
+                s2.cell(cont.oid, write=True)[k] = val
+                yield s2, None
+            rest.assume(tm.Not(c.term))
+        if ip.feasible(rest):
+            rest.cell(cont.oid, write=True)[SymKey(key) if is_sym(key) else key] = val
+            yield rest, None
+        return
+    if isinstance(cont, FiniteMap):
+        if isinstance(key, JVal):
+            for st1, kk in narrow(ip, st, key):
+                if isinstance(kk, (JList, JDict)):
+                    yield st1, Raise(mk_exc(st1, "TypeError", "unhashable type"))
+                elif kind_of(kk) != "str":
+                    raise Unsupported("finite map store with a non-str key")
+                else:
+                    yield from setitem(ip, st1, cont, kk, val)
+            return
+        rest = st
+        for k in list(st.cell(cont.oid)):
+            e = eq_total(ip, rest, key, k)
+            c = tm.Bool(e) if isinstance(e, bool) else e.term
+            if c.op == "bool" and not c.val:
+                continue
+            if ip.feasible(rest, c):
+                s2 = rest.fork()
+                s2.assume(c)
+                ip.count_path()
+                s2.cell(cont.oid, write=True)[k] = (tm.TRUE, val)
+                yield s2, None
+            rest.assume(tm.Not(c))
+        if ip.feasible(rest):
+            raise Unsupported("store into a finite map with a key possibly outside its universe")
         return
     if isinstance(cont, PyList):
         if is_sym(key):
